@@ -16,7 +16,7 @@ YOUR WORKTREE: {wt}  (a detached git worktree of the repository; the package is 
 RULES
 1. Produce up to 3 INDEPENDENT changes (each a separate patch against the clean worktree HEAD, each breaking the property by a different mechanism). Each change should be small and look like something a developer could plausibly write (a refactor gone slightly wrong, an off-by-one, a forgotten case, a "performance optimisation", a shared mutable default, an inherited method not overridden, a regex tweak, an early return...). NOT a change that ordinary use would expose at once: it must need something specific to manifest - a multi-step sequence of operations, a particular unusual input or neighbourhood, a particular option combination, or two cooperating sites that each look fine alone. Changes in the files named above only (the pvl package, not the tests).
 2. The existing tests must still pass exactly as before. Run, from inside the worktree: `python3 /tmp/seedtools/baseline_check.py {wt}` - it must print "262/262 stable tests pass" (9 other tests fail at baseline because of an incompatible multidict version; ignore those). A change that makes any of the 262 fail is rejected.
-3. For each change write a demonstration program demo.py (plain Python, no pytest needed, run as `cd {wt} && PYTHONPATH={wt} /venv/bin/python <demo.py>`; note the package must be imported from the worktree, so keep PYTHONPATH) that exits 0 on the clean worktree and exits 1 (printing what went wrong) with your change applied, and that demonstrates a violation OF THE PROPERTY AS STATED (not of some other behaviour). Verify both directions yourself (git stash / git checkout -- . to get the clean tree back).
+3. For each change write a demonstration program demo.py (plain Python, no pytest needed, run as `cd {wt} && PYTHONPATH={wt} /venv/bin/python <demo.py>`; note the package must be imported from the worktree, so keep PYTHONPATH) that exits 0 on the clean worktree and exits 1 (printing what went wrong) with your change applied, and that demonstrates a violation OF THE PROPERTY AS STATED (not of some other behaviour). Verify both directions yourself (save your change with `git diff > file`, restore the clean tree with `git checkout -- .`, re-apply with `git apply file`; do NOT use `git stash` - the stash is shared by all worktrees of this repository and other agents work concurrently).
 4. Deliverables, for change n = 1, 2, 3: {out}/{pid}_n/patch.diff (output of `git -C {wt} diff` with only that change applied), {out}/{pid}_n/demo.py, {out}/{pid}_n/notes.md (3-6 lines: what was changed, why tests still pass, what exactly is needed to make it manifest). Leave the worktree clean (git -C {wt} checkout -- .) when you finish.
 5. Do not weaken or special-case to make it undetectable by silly means (no environment checks, no randomness, no time bombs, no dependence on process ids); the defect must be a deterministic function of the inputs/operations. Do not add new files to the package.
 {extra}
